@@ -12,6 +12,8 @@ mod c05;
 mod c08;
 mod c09;
 mod c12;
+mod c13;
+mod gen_xml;
 mod c14;
 mod c15;
 mod c20;
@@ -52,6 +54,7 @@ fn dispatch(suite: &str, case: &Value) -> Value {
         "c08" => c08::run(case),
         "c09" => c09::run(case),
         "c12" => c12::run(case),
+        "c13" => c13::run(case),
         "c14" => c14::run(case),
         "c15" => c15::run(case),
         "c20" => c20::run(case),
